@@ -1,17 +1,25 @@
 """C24 - upstream credentials are only sent to the upstream proxy / reverse target.
 
-Decided:
-  R24.1 who-may-use: ``UpstreamAuth.auth`` is read only inside ``requestheaders`` and ``http_connect_upstream``; the class,
+Decided (all rules compare what the code does - values, decision tables, interpreted commands - not how it is written):
+  R24.1 who-may-use: ``UpstreamAuth.auth`` is read only by ``requestheaders`` and ``http_connect_upstream`` - in their bodies or in
+        helpers that can only run on their behalf (``exclusive_closure``: every reference to the helper in the package is a call
+        written inside an allowed function, it overrides nothing, is no hook name, carries no registering decorator); the class,
         the ``upstream_auth`` option value and ``parse_upstream_auth`` are referenced nowhere else in the package (the
         addon instance is only created in ``default_addons``), so no other code can obtain the credentials.
   R24.2 decision table by abstract evaluation of both hook methods over auth {unset, set} x every ProxyMode subclass x
         scheme {http, https}:  ``requestheaders`` writes ``Proxy-Authorization`` iff auth and UpstreamMode and http;
         ``Authorization`` iff auth and ReverseMode; nothing else; ``http_connect_upstream`` writes exactly
         ``Proxy-Authorization`` iff auth.  The value written is ``self.auth``, the target is the flow's request headers.
+        The evaluation is value based: the flow / request / headers / mode / credentials are abstract objects that keep their
+        identity through local aliases, helper parameters and return values; helper methods and module functions of the addon are
+        evaluated in place, ``match`` class patterns are isinstance tests, module / class constants are read, early returns and
+        logging / assertions / docstrings are transparent.  A shape the path engine does not evaluate (a loop over a rule table,
+        dict dispatch ...) is not refused: the same cells are then extracted by *interpretation* (``interp_outcomes``).
   R24.4 the same table with the third input *tunnelled* (UpstreamMode only): a request received inside a client CONNECT
         tunnel is relayed through the tunnel to the origin, so nothing may be written for it.  Reported under its own
         rule id because it fires on today's tree (F-C24, known finding): a standing R24.2 finding would make every R24.2
-        self-test mutant vacuously "caught".
+        self-test mutant vacuously "caught".  The finding is keyed by the cell (mode, scheme, tunnelled) and anchored at the hook
+        method, so it is the same finding whatever shape / helper the write lives in.
   R24.5 the same decision extracted by *interpreting* both hook methods (pyint), with the attributes of the flow that do not determine
         where the request is sent as INDEPENDENT inputs: the HTTP layer routes by (proxy mode, request.scheme) alone
         (GetHttpConnection.tls = request.scheme == "https"; CONNECT to the proxy iff tls or mode != upstream), while at hook time
@@ -19,18 +27,22 @@ Decided:
         scheme), the client may or may not speak TLS to the listener and any port goes with any scheme.  Every (auth, mode, scheme) cell
         is therefore evaluated in the worlds server_conn.tls x client_conn.tls x port that agree / disagree with the scheme; the
         reference outcome depends on (auth, mode, scheme) only.  A decision keyed on a stand-in for the scheme is *analysed* and
-        reported here; R24.2's strict path table still refuses flow attributes it does not model (exit 2 unless another rule fires).
-  R24.3 ``HttpConnectUpstreamHook`` is constructed only in ``HttpUpstreamProxy.start_handshake``, only on paths where
-        ``self.send_connect`` is true, with the flow whose request is the CONNECT built there; the bytes assembled from
-        that request go to ``self.tunnel_connection`` and nothing is sent to another connection on those paths; the
-        tunnel connection is the ``Server`` built from ``ctx.server.via`` (``make`` / ``__init__`` wiring).
+        reported here.
+  R24.3 ``HttpConnectUpstreamHook`` is constructed only by ``HttpUpstreamProxy.start_handshake`` (or a helper that only runs on its
+        behalf).  The layer is then *interpreted* in concrete worlds (proxy scheme x destination host kind x send_connect x host-header
+        option): ``make`` builds the stack, through it the constructor chain builds the layer, and ``start_handshake`` of that very
+        layer is run with the hook answered the way UpstreamAuth answers it.  Decided on the interpreted commands: the hook fires only
+        when ``send_connect`` is true, with a flow bound to the tunnel connection whose request is the CONNECT; every ``SendData`` of the
+        handshake targets the tunnel connection and the bytes carrying the credentials are among them; the tunnel connection is the
+        ``Server`` that ``make`` builds for the address in ``ctx.server.via`` and not the destination connection.
 NOT decided: what an addon that re-targets ``server_conn.via`` causes; the bytes on the wire (HTTP/1 assembly is trusted); that the HTTP
 layer really sends a request only on a connection matching its scheme (connection reuse: C08 R08.1/R08.2 - a relaxed
 ``connection_spec_matches`` that lets a plain request ride an existing CONNECT+TLS tunnel is a C08 violation and invisible here).
 
 `tunnelled` is an input the property needs (a plain-HTTP request sent through a client CONNECT tunnel in upstream mode is
 relayed to the origin, see /verif/findings/F-C24).  The accepted ways for the addon to observe it are listed in
-``TUNNEL_OBSERVERS``; a decision that reads any other flow attribute is an unmodelled shape (ANALYSIS-ERROR).
+``TUNNEL_OBSERVERS``; a decision that reads any other flow attribute is outside the abstract evaluation (then interpreted, where the
+attribute is an independent input or - when the interpreted world does not define it - an ANALYSIS-ERROR).
 """
 
 from __future__ import annotations
@@ -44,18 +56,20 @@ from ..model import last_attr
 from ..model import qual_of
 from ..model import walk_in_order
 from ..paths import C
-from ..paths import GenericSpec
+from ..paths import class_names
+from ..paths import Engine
 from ..paths import is_const
-from ..paths import traces_of
+from ..paths import Spec
+from ..paths import State
 from ..selftest import Mutant
+from ._helpers_C import ADDONS_INIT
 from ._helpers_C import class_isa
 from ._helpers_C import default_addon_order
-from ._helpers_C import hook_method
+from ._helpers_C import hook_method_sem
+from ._helpers_C import hook_name
 from ._helpers_C import is_obj
-from ._helpers_C import isinstance_targets
 from ._helpers_C import mode_classes
 from ._helpers_C import MODE_SPECS
-from ._helpers_C import modules_mentioning
 from ._helpers_C import OBJ
 from ._helpers_C import run_cell
 from ._helpers_C import StrictSpec
@@ -63,8 +77,9 @@ from ._helpers_C import StrictSpec
 PROP = "C24"
 REG = {
     "strength": "strong",
-    "technique": "who-may-use scan (package wide) + decision-table extraction by abstract evaluation of UpstreamAuth's hook methods "
-    "+ CFG path enumeration of HttpUpstreamProxy.start_handshake (hook guard, send target) + constructor wiring dataflow",
+    "technique": "who-may-use scan (package wide, private helpers followed through the call graph) + decision-table extraction by abstract "
+    "evaluation and by interpretation of UpstreamAuth's hook methods + interpretation of HttpUpstreamProxy.make / __init__ / "
+    "start_handshake in concrete worlds (hook guard, CONNECT flow, send target, tunnel-connection wiring)",
     "claim": "UpstreamAuth.auth is read only by the two hook methods; over all (auth, proxy mode class, scheme, tunnelled) cells they "
     "write Proxy-Authorization exactly for non-tunnelled plain-HTTP requests in upstream mode and for the CONNECT sent to the "
     "upstream proxy, Authorization exactly in reverse mode; the CONNECT carrying the header is sent to the tunnel (proxy) connection only.",
@@ -76,43 +91,311 @@ UP = "mitmproxy/proxy/layers/http/_upstream_proxy.py"
 HK = "mitmproxy/proxy/layers/http/_hooks.py"
 TUN = "mitmproxy/proxy/tunnel.py"
 READERS = ("UpstreamAuth.requestheaders", "UpstreamAuth.http_connect_upstream")
+CRED = b"Basic dXNlcjpwYXNz"  # the configured credentials in every interpreted world
 
 # accepted idioms by which requestheaders may observe "this request is inside a CONNECT tunnel":
 #   normalised expression text (flow parameter spelled `f`) -> value when tunnelled / when not tunnelled
 TUNNEL_OBSERVERS: dict[str, tuple] = {}
 
 
+# ---------------------------------------------------------------------------------------------------
+# "who may": the functions of one module that run only on behalf of the allowed entry points
+
+
+def modules_mentioning(ctx, *needles, sub: str = "mitmproxy", exclude=("mitmproxy/contrib/",)):
+    """Modules of the package whose text contains any of ``needles`` (sound pre-filter for identifier searches: a Name / Attribute /
+    string reference needs the identifier in the file's text; honours in-memory overrides).  Same contract as the helper of that name
+    in _helpers_C, with the package's source texts read once per run."""
+    m = ctx.model
+    cache = ctx.__dict__.setdefault("_c24_sources", {})
+    key = (sub, exclude)
+    if key not in cache:
+        rels = {p.relative_to(m.repo).as_posix() for p in (m.repo / sub).rglob("*.py")} | {r for r in m.overrides if r.startswith(sub)}
+        cache[key] = [(rel, m.source(rel)) for rel in sorted(rels) if not any(rel.startswith(e) for e in exclude)]
+    return [m.module(rel) for rel, src in cache[key] if any(n in src for n in needles)]
+
+
+def all_hook_names(ctx) -> set:
+    """Names the addon manager dispatches to (superset): every class of the package that is called / derives from ``...Hook``, with the
+    derived or explicit name."""
+    out = set()
+    for mm in modules_mentioning(ctx, "Hook"):
+        for q, d in mm.defs().items():
+            if isinstance(d, ast.ClassDef) and (d.name.endswith("Hook") or any(last_attr(b).endswith("Hook") for b in d.bases)):
+                out.add(hook_name(d.name))
+                for st in d.body:
+                    tgt = st.targets[0] if isinstance(st, ast.Assign) and len(st.targets) == 1 else getattr(st, "target", None) if isinstance(st, ast.AnnAssign) else None
+                    if isinstance(tgt, ast.Name) and tgt.id == "name" and isinstance(getattr(st, "value", None), ast.Constant) and isinstance(st.value.value, str):
+                        out.add(st.value.value)
+    return out
+
+
+def _in_allowed(q: str, allowed) -> bool:
+    return any(q == a or q.startswith(a + ".") for a in allowed)  # a nested def / lambda runs on behalf of the function that holds it
+
+
+class exclusive_closure:
+    """``roots`` plus every helper of module ``rel`` (method of ``cls`` or module-level function) that can only run on behalf of them:
+    it is referenced at least once, every reference in the package is a *call* written inside an allowed function, and nothing else can
+    invoke it by name (it overrides no base-class method, is no special method, carries no registering decorator and - for an addon
+    class - is not the name of a hook the addon manager dispatches).  Makes "extract method" transparent for who-may-use rules.
+    Membership is decided on demand (``q in closure``), so only the functions a rule asks about are searched for."""
+
+    def __init__(self, ctx, rel: str, cls: str | None, roots, addon: bool = False):
+        self.ctx, self.rel, self.cls, self.roots, self.addon = ctx, rel, cls, tuple(roots), addon
+        self.mod = ctx.model.module(rel)
+        self.memo: dict = {}
+        self._hooks = None
+        self._base_methods = None
+
+    def __iter__(self):
+        return iter(self.roots)
+
+    def __contains__(self, q) -> bool:
+        return self.allows(q, ())
+
+    def base_methods(self):
+        if self._base_methods is None:
+            self._base_methods = set()
+            if self.cls:
+                for _, c in self.ctx.model.mro(self.rel, self.cls)[1:]:
+                    self._base_methods |= {st.name for st in c.body if isinstance(st, (ast.FunctionDef, ast.AsyncFunctionDef))}
+        return self._base_methods
+
+    def refs(self, nm):
+        """(references inside ``rel``: [(node, enclosing qual, is_call)], referenced from another module that knows this module / class?)"""
+        import re
+
+        inside, outside = [], False
+        word = re.compile(r"(?<![A-Za-z0-9_])" + re.escape(nm) + r"(?![A-Za-z0-9_])")
+        for mm in modules_mentioning(self.ctx, nm):
+            if not word.search(mm.source):
+                continue
+            for n in ast.walk(mm.tree):
+                hit = (isinstance(n, ast.Attribute) and n.attr == nm) or (isinstance(n, ast.Name) and n.id == nm and isinstance(n.ctx, ast.Load)) or (
+                    isinstance(n, ast.Constant) and n.value == nm) or (isinstance(n, ast.alias) and n.name == nm)
+                if not hit:
+                    continue
+                if mm.rel == self.rel:
+                    par = getattr(n, "_parent", None)
+                    inside.append((n, qual_of(n), isinstance(par, ast.Call) and par.func is n and not isinstance(n, ast.Constant)))
+                elif (self.cls and self.cls in mm.source) or self.rel.rsplit("/", 1)[-1][:-3] in mm.source:
+                    outside = True  # a module that can hold this class / module refers to the name: not ours to reason about
+        return inside, outside
+
+    def allows(self, q: str, stack) -> bool:
+        if _in_allowed(q, self.roots):
+            return True
+        if q in self.memo:
+            return self.memo[q]
+        if q in stack:
+            return True  # a cycle of helpers adds no new caller
+        d = self.mod.get(q)
+        ok = False
+        if isinstance(d, (ast.FunctionDef, ast.AsyncFunctionDef)) and ("." not in q or (self.cls and q.startswith(self.cls + ".") and q.count(".") == 1)):
+            ok = self._helper_ok(q, d, stack + (q,))
+        elif "." in q and not isinstance(d, ast.ClassDef):
+            # a nested def / lambda runs on behalf of the function that holds it
+            ok = self.allows(q.rsplit(".", 1)[0], stack)
+        self.memo[q] = ok
+        return ok
+
+    def _helper_ok(self, q, d, stack) -> bool:
+        nm = d.name
+        if nm.startswith("__") and nm.endswith("__"):
+            return False
+        if {last_attr(x) for x in d.decorator_list} - {"staticmethod", "classmethod"}:
+            return False  # a decorator may register the function somewhere (commands, option hooks): not provably private
+        if "." in q and nm in self.base_methods():
+            return False  # overrides a framework method: invoked through the base class protocol
+        if self.addon and "." in q and not nm.startswith("_"):
+            if self._hooks is None:
+                self._hooks = all_hook_names(self.ctx)
+            if nm in self._hooks:
+                return False  # the addon manager calls it for that event
+        inside, outside = self.refs(nm)
+        if outside or not inside:
+            return False
+        return all(is_call and self.allows(where, stack) for _, where, is_call in inside)
+
+
+FLOW_PATHS = ("", "request", "client_conn")  # sub-objects of the flow the table knows; what is read from them is listed in AuthSpec.flow_attr
+
+
 class AuthSpec(StrictSpec):
-    def __init__(self, model, flow_param: str, cell: dict):
+    """The hook methods evaluated over one (auth, mode, scheme, tunnelled) cell.  Values, not spellings: the flow, its request, the
+    request's headers, the proxy mode object and the credentials are abstract objects that keep their identity through local aliases,
+    helper parameters and return values; helpers of the addon (methods / module functions) are inlined; module- and class-level
+    constants are read; ``match`` class patterns are isinstance tests."""
+
+    max_depth = 5
+
+    def __init__(self, ctx, cell: dict):
         super().__init__()
-        self.model = model
-        self.f = flow_param
+        self.ctx = ctx
+        self.model = ctx.model
+        self.mod = ctx.model.module(UA)
         self.cell = cell
+        self._vetted: set = set()
+        self._log_names = None
+
+    # ---- inputs
+    def flow_attr(self, path: str, expr):
+        if path in FLOW_PATHS:
+            return OBJ("fp", path)
+        if path == "request.scheme":
+            return C(self.cell["scheme"])
+        if path == "request.headers":
+            return OBJ("reqheaders")
+        if path == "client_conn.proxy_mode":
+            return OBJ("mode", self.cell["mode"])
+        key = "f." + path
+        if key in TUNNEL_OBSERVERS:
+            return TUNNEL_OBSERVERS[key][0 if self.cell["tunnelled"] else 1]
+        if any(k.startswith(key + ".") for k in TUNNEL_OBSERVERS):
+            return OBJ("fp", path)
+        raise AnalysisError(f"UpstreamAuth: the decision reads an unmodelled flow attribute {norm(expr)}")
+
+    def const_of(self, vals):
+        if len(vals) != 1:
+            return None
+        try:
+            v = ast.literal_eval(vals[0])
+        except Exception:
+            return None
+        return C(v) if isinstance(v, (str, bytes, int, bool, type(None))) else None
+
+    def class_const(self, name):
+        vals = []
+        for st in self.model.cls(UA, "UpstreamAuth").body:
+            if isinstance(st, ast.Assign) and any(isinstance(t, ast.Name) and t.id == name for t in st.targets):
+                vals.append(st.value)
+            elif isinstance(st, ast.AnnAssign) and isinstance(st.target, ast.Name) and st.target.id == name and st.value is not None:
+                vals.append(st.value)
+        return self.const_of(vals)
 
     def atom(self, expr, st, depth):
-        ch = attr_chain(expr)
-        if ch == "self.auth":
-            return OBJ("auth") if self.cell["auth"] else C(None)
-        if ch == f"{self.f}.client_conn.proxy_mode":
-            return OBJ("mode", self.cell["mode"])
-        if ch == f"{self.f}.request.scheme":
-            return C(self.cell["scheme"])
-        if ch == f"{self.f}.request.headers":
-            return OBJ("reqheaders")
-        if ch in (self.f, f"{self.f}.request", f"{self.f}.client_conn"):
-            return OBJ(ch[len(self.f):] or "flow")
-        if ch.startswith(self.f + "."):
-            key = "f." + ch[len(self.f) + 1 :]
-            if key in TUNNEL_OBSERVERS:
-                return TUNNEL_OBSERVERS[key][0 if self.cell["tunnelled"] else 1]
-            raise AnalysisError(f"UpstreamAuth: the decision reads an unmodelled flow attribute {norm(expr)}")
+        if isinstance(expr, ast.Name):
+            if st.has(f"{depth}:{expr.id}"):
+                return None
+            if expr.id in ("self", "cls"):
+                return OBJ("self")
+            return self.const_of(self.mod.assigns(expr.id))  # a module-level literal (PROXY_AUTH_HEADER = "Proxy-Authorization")
+        if isinstance(expr, ast.Attribute):
+            base = self.value(expr.value, st, depth)
+            if is_obj(base, "self"):
+                if expr.attr == "auth":
+                    return OBJ("auth") if self.cell["auth"] else C(None)
+                return self.class_const(expr.attr)
+            if is_obj(base, "fp"):
+                return self.flow_attr((base[2] + "." if base[2] else "") + expr.attr, expr)
+            if is_obj(base, "reqheaders") or is_obj(base, "mode") or is_obj(base, "auth"):
+                raise AnalysisError(f"UpstreamAuth: unmodelled attribute of the {base[1]} object: {norm(expr)}")
         return None
 
-    def decide_isinstance(self, cond, st, depth):
-        v = self.value(cond.args[0], st, depth)
-        if is_obj(v, "mode"):
-            return any(class_isa(self.model, MODE_SPECS, v[2], n) for n in isinstance_targets(cond))
+    # ---- conditions
+    def mode_class(self, texpr):
+        """name of the mode_specs class a type expression denotes (through import aliases), else None"""
+        r = self.model.resolve_name(self.mod, texpr)
+        if r is not None and r[0].rel == MODE_SPECS and isinstance(r[1], ast.ClassDef):
+            return r[1].name
+        n = last_attr(texpr)
+        if n and isinstance(self.model.module(MODE_SPECS).get(n), ast.ClassDef) and (attr_chain(texpr) == n and n not in self.mod.imports or attr_chain(texpr).split(".")[0] == "mode_specs"):
+            return n
         return None
+
+    @staticmethod
+    def type_elts(texpr):
+        if isinstance(texpr, ast.Tuple):
+            return [x for e in texpr.elts for x in AuthSpec.type_elts(e)]
+        if isinstance(texpr, ast.BinOp) and isinstance(texpr.op, ast.BitOr):
+            return AuthSpec.type_elts(texpr.left) + AuthSpec.type_elts(texpr.right)
+        return [texpr]
+
+    def decide_isinstance(self, cond, st, depth):
+        if len(cond.args) != 2:
+            return None
+        v = self.value(cond.args[0], st, depth)
+        elts = self.type_elts(cond.args[1])
+        if is_obj(v, "mode"):
+            out = False
+            for e in elts:
+                n = self.mode_class(e)
+                if n is None:
+                    raise AnalysisError(f"UpstreamAuth: isinstance of the proxy mode against something that is not a mode_specs class: {norm(cond)}")
+                out = out or class_isa(self.model, MODE_SPECS, v[2], n)
+            return out
+        names = class_names(cond.args[1])
+        if is_obj(v, "auth") and names:
+            return any(n in ("bytes", "object") for n in names)  # parse_upstream_auth returns bytes
+        if is_const(v) and names and all(n in ("bytes", "str", "int", "bool", "object") for n in names):
+            return isinstance(v[1], tuple({"bytes": bytes, "str": str, "int": int, "bool": bool, "object": object}[n] for n in names))
+        return None
+
+    def decide_leaf(self, cond, st, depth):
+        # type(mode) is / == Cls: exact class
+        if isinstance(cond, ast.Compare) and len(cond.ops) == 1 and isinstance(cond.ops[0], (ast.Is, ast.IsNot, ast.Eq, ast.NotEq)):
+            for a, b in ((cond.left, cond.comparators[0]), (cond.comparators[0], cond.left)):
+                if isinstance(a, ast.Call) and isinstance(a.func, ast.Name) and a.func.id == "type" and len(a.args) == 1 and not a.keywords:
+                    v = self.value(a.args[0], st, depth)
+                    if is_obj(v, "mode"):
+                        n = self.mode_class(b)
+                        if n is None:
+                            raise AnalysisError(f"UpstreamAuth: type() of the proxy mode compared with something that is not a mode_specs class: {norm(cond)}")
+                        eq = v[2] == n
+                        return eq if isinstance(cond.ops[0], (ast.Is, ast.Eq)) else not eq
+        return StrictSpec.decide_leaf(self, cond, st, depth)
+
+    def match_case(self, subject, pattern, st, depth):
+        d = Spec.match_case(self, subject, pattern, st, depth)
+        if d is None:
+            raise AnalysisError(f"UpstreamAuth: match pattern not modelled: {norm(pattern)}")
+        return d
+
+    # ---- helpers of the addon are evaluated in place
+    def inline(self, call, st, depth):
+        f = call.func
+        d = None
+        if isinstance(f, ast.Attribute) and isinstance(f.value, ast.Name) and f.value.id in ("self", "cls", "UpstreamAuth"):
+            r = self.model.method(UA, "UpstreamAuth", f.attr)
+            d = r[1] if r is not None else None
+        elif isinstance(f, ast.Name) and not st.has(f"{depth}:{f.id}"):
+            d = self.mod.get(f.id)
+        if not isinstance(d, ast.FunctionDef):
+            return None
+        if any(isinstance(a, ast.Starred) for a in call.args) or any(k.arg is None for k in call.keywords) or d.args.vararg or d.args.kwarg:
+            raise AnalysisError(f"UpstreamAuth: call of a helper with star-arguments is not modelled: {norm(call)}")
+        if id(d) not in self._vetted:
+            self.vet(d)
+            self._vetted.add(id(d))
+        return d
+
+    def value(self, expr, st, depth):
+        if isinstance(expr, ast.Call):
+            fn = self.inline(expr, st, depth)
+            if fn is not None:
+                # a helper called inside an expression (`if (h := _header_for(..)) and self.auth`): evaluated in place; it has to be a pure
+                # decision there (one outcome, no header write) - with effects it is only modelled as a statement / whole condition
+                o = Engine(self).call(fn, expr, {st}, depth)
+                if o.exc or len(o.ret) != 1:
+                    raise AnalysisError(f"UpstreamAuth: helper call inside an expression has {len(o.ret)} outcomes / raises: {norm(expr)}")
+                r = next(iter(o.ret))
+                if r.trace != st.trace:
+                    raise AnalysisError(f"UpstreamAuth: helper with effects called inside an expression is not modelled: {norm(expr)}")
+                return r.get("$ret")
+        return StrictSpec.value(self, expr, st, depth)
+
+    def call_ok(self, call) -> bool:
+        """pure diagnostics: logging.<..>, <module-level logger>.<..>, also when the logger is obtained in place"""
+        if self._log_names is None:
+            self._log_names = set(self.log_roots)
+            for stt in self.mod.tree.body:
+                if isinstance(stt, ast.Assign) and isinstance(stt.value, ast.Call) and attr_chain(stt.value.func).split(".")[0] == "logging":
+                    self._log_names |= {t.id for t in stt.targets if isinstance(t, ast.Name)}
+        e = call.func
+        while isinstance(e, (ast.Attribute, ast.Call)):
+            e = e.value if isinstance(e, ast.Attribute) else e.func
+        return isinstance(e, ast.Name) and e.id in self._log_names and isinstance(call.func, ast.Attribute)
 
     def write_event(self, target, value, stmt, st, depth):
         if isinstance(target, ast.Subscript) and is_obj(self.value(target.value, st, depth), "reqheaders"):
@@ -139,23 +422,66 @@ def expected_requestheaders(cell) -> set:
 PRETTY = {"proxy-authorization": "Proxy-Authorization", "authorization": "Authorization"}
 
 
-def eval_table(ctx, fn, qual, cells, expected):
-    params = [a.arg for a in fn.args.args]
-    ctx.require(len(params) == 2 and params[0] == "self", f"{qual}: unexpected signature {params}")
+def path_outcomes(ctx, fn, qual, cells):
+    """[(cell, how, header names written)] by abstract evaluation on the path engine (every condition decided from the cell)."""
+    params = [a.arg for a in fn.args.posonlyargs + fn.args.args]
+    extra_ok = len(params) - 2 <= len(fn.args.defaults) and not fn.args.vararg and all(d is not None for d in fn.args.kw_defaults)
+    ctx.require(len(params) >= 2 and params[0] == "self" and extra_ok, f"{qual}: unexpected signature {params} (hooks are called with the flow only)")
     f = params[1]
     StrictSpec().vet(fn)
-    bad = {"R24.2": 0, "R24.4": 0}
+    out = []
     for cell in cells:
+        spec = AuthSpec(ctx, cell)
+        bindings = {f: OBJ("fp", "")}
+        for p, dflt in zip(params[len(params) - len(fn.args.defaults):], fn.args.defaults):
+            if p != f:
+                bindings[p] = spec.value(dflt, State(), 0)
+        how, st = run_cell(spec, fn, bindings)
+        out.append((cell, how, {e[1] for e in st.trace if e[0] == "hdr"}))
+    return out
+
+
+def interp_outcomes(ctx, fn, qual, cells):
+    """The same table by interpretation (pyint) of the hook on a flow that carries exactly the inputs of the table: used when the hook is
+    written in a shape the path engine does not evaluate (loops over a table, dict dispatch, comprehensions ...).  As on the path
+    engine, a decision that reads another attribute of the flow is not evaluated (ANALYSIS-ERROR; R24.5 analyses those)."""
+    it = HookInterp(ctx)
+    meth = qual.split(".")[-1]
+    out = []
+    for cell in cells:
+        outcome, _ = it.run(meth, CRED if cell["auth"] else None, cell["mode"], cell["scheme"] or "http", strict=True)
+        if isinstance(outcome, str):
+            out.append((cell, outcome.replace("raises ", "raise:"), set()))
+            continue
+        for h, v in outcome.items():
+            if v != CRED:
+                raise AnalysisError(f"UpstreamAuth: header value of {PRETTY.get(h, h)} is not self.auth")
+        out.append((cell, "return", set(outcome)))
+    return out
+
+
+def eval_table(ctx, fn, qual, cells, expected):
+    try:
+        outcomes = path_outcomes(ctx, fn, qual, cells)
+    except AnalysisError as e:
+        # not a verdict: the shape is outside the abstract evaluation.  The decision is then *interpreted*; `tunnelled` has no
+        # accepted observer (TUNNEL_OBSERVERS), so a tunnelled cell is decided like its untunnelled twin, exactly as on the path engine.
+        if TUNNEL_OBSERVERS:
+            raise
+        try:
+            outcomes = interp_outcomes(ctx, fn, qual, cells)
+        except AnalysisError as e2:
+            raise AnalysisError(f"{e} (and not interpretable either: {e2})")
+        ctx.note(f"{qual}: table extracted by interpretation, the path engine does not evaluate this shape ({e})")
+    bad = {"R24.2": 0, "R24.4": 0}
+    for cell, how, got in outcomes:
         rule = "R24.4" if cell["tunnelled"] else "R24.2"
-        spec = AuthSpec(ctx.model, f, cell)
-        how, st = run_cell(spec, fn, {f: OBJ("flow")})
         ctx.cells += 1
         short = f"mode={cell['mode']} scheme={cell['scheme']} tunnelled={cell['tunnelled']}" + ("" if cell["auth"] else " auth=None")
         if how != "return":
             bad[rule] += 1
             ctx.fail(rule, (UA, qual, fn), f"{how} for {short}", "the hook raises instead of deciding", cell=cell)
             continue
-        got = {e[1] for e in st.trace if e[0] == "hdr"}
         exp = expected(cell)
         for h in sorted(got - exp):
             bad[rule] += 1
@@ -170,24 +496,88 @@ def eval_table(ctx, fn, qual, cells, expected):
     return bad
 
 
+class HookInterp:
+    """UpstreamAuth's hook methods interpreted (pyint) on one concrete flow.  ``run`` -> (outcome, world text) with outcome =
+    {header name (lower case): value} of the credentials headers on the request afterwards | 'raises <Exc>'."""
+
+    def __init__(self, ctx):
+        from ._helpers_C import CachedModel
+        from ._helpers_C import LayerInterp
+
+        self.ctx = ctx
+        # one interpreter for all cells (module constants, class look-ups are the same in every cell); logging is a no-op; private helpers,
+        # match, early returns, tables, module constants are interpreted like the code they replace
+        self.it = LayerInterp(CachedModel(ctx.model))
+        self.anc: dict = {}
+
+    def run(self, meth, auth, mode, scheme, server_tls=None, client_tls=None, std_port=None, strict=False):
+        """``strict``: the flow carries only the inputs of the R24.2 table (request.scheme, request.headers, client_conn.proxy_mode); a read
+        of anything else ends the analysis (ANALYSIS-ERROR) instead of being evaluated on one arbitrary value."""
+        from ..pyint import DictRec
+        from ..pyint import Raised
+        from ..pyint import Rec
+
+        it = self.it
+        if mode not in self.anc:
+            self.anc[mode] = [c.name for _, c in self.ctx.model.mro(MODE_SPECS, mode)]
+        anc = self.anc[mode]
+        https = scheme == "https"
+        s_tls = https if server_tls is None else server_tls
+        c_tls = https if client_tls is None else client_tls
+        port = (443 if https else 80) if std_port is None else ((443 if https else 80) if std_port else (8080 if https else 443))
+        it.steps = 0
+        it.writes = []
+        it.log = []
+        headers = DictRec("Headers", {"Host": "example.com", "Accept": "*/*"}, case_insensitive=True, _name="request.headers")
+        req = Rec("Request", _name="request", scheme=scheme, headers=headers, method="CONNECT" if meth != "requestheaders" else "GET", host="example.com", port=port,
+                  authority="example.com", path="/", http_version="HTTP/1.1", is_http2=False, is_http3=False, is_http11=True, is_http10=False, first_line_format="absolute")
+        mode_rec = Rec(mode, _bases=tuple(anc[1:]), _impl=(MODE_SPECS, mode), scheme="http", transport_protocol="tcp", full_spec=mode, type_name=mode)
+        flow = Rec("HTTPFlow", _name="flow", request=req, response=None, client_conn=Rec("Client", proxy_mode=mode_rec, tls=c_tls, tls_established=c_tls),
+                   server_conn=Rec("Server", via=None, address=("example.com", port), tls=s_tls, tls_established=False, connected=False, timestamp_start=None, peername=None),
+                   metadata=DictRec("dict", {}, _name="flow.metadata"), is_replay=None, live=True)
+        if strict:
+            req = Rec("Request", _name="request", scheme=scheme, headers=headers)
+            flow = Rec("HTTPFlow", _name="flow", request=req, client_conn=Rec("Client", proxy_mode=Rec(mode, _bases=tuple(anc[1:]), _impl=(MODE_SPECS, mode))))
+        self_rec = Rec("UpstreamAuth", _impl=(UA, "UpstreamAuth"), auth=auth)
+        try:
+            it.method(self_rec, meth, flow)
+            outcome = {k.lower(): v for k, v in headers._items.items() if isinstance(k, str) and k.lower() in ("proxy-authorization", "authorization")}
+        except Raised as r:
+            outcome = f"raises {r.name}"
+        world = "" if (server_tls, client_tls, std_port) == (None, None, None) else f" [flow.server_conn.tls={s_tls} flow.client_conn.tls={c_tls} request.port={port}]"
+        return outcome, world
+
+
 def r24_1(ctx):
     m = ctx.model
     mod = m.module(UA)
     m.cls(UA, "UpstreamAuth")
+    # the two hook methods and the private helpers that run only on their behalf (an extracted `_set_credentials` is still "the hook")
+    readers = exclusive_closure(ctx, UA, "UpstreamAuth", READERS, addon=True)
+    configurers = exclusive_closure(ctx, UA, "UpstreamAuth", ("UpstreamAuth.configure",), addon=True)
     reads = [n for n in walk_in_order(mod.tree) if isinstance(n, ast.Attribute) and n.attr == "auth" and isinstance(n.ctx, ast.Load)]
+    seen = set()
     for n in reads:
         q = qual_of(n)
-        ctx.check(q in READERS, "R24.1", (UA, q, n), f".auth read in {q}", "the credentials are read outside the two hook methods that may attach them",
-                  desc=f"{norm(n)} read in {q} (line-independent)")
-    ctx.expect_instances("R24.1", 5)
+        ok = q in readers
+        if ok and q in seen:
+            continue
+        seen.add(q)
+        ctx.check(ok, "R24.1", (UA, q, n), f".auth read in {q}", "the credentials are read outside the two hook methods that may attach them",
+                  desc=f".auth read in {q}" + ("" if q in READERS else " (runs only on behalf of the hook methods)"))
+    # the hook methods still get at the credentials somewhere (what they do with them is R24.2 / R24.5); otherwise the anchor moved
+    for r in READERS:
+        ctx.func(UA, r)
+    ctx.require(any(q in readers for q in seen), "UpstreamAuth: self.auth is not read by the hook methods or their helpers (anchor moved)")
     # nothing else in the package can get hold of the credentials
     n_ref = 0
+    builders = exclusive_closure(ctx, ADDONS_INIT, None, ("default_addons",))
     for mm in modules_mentioning(ctx, "UpstreamAuth", "upstream_auth", "upstreamauth"):
         for n in walk_in_order(mm.tree):
             if mm.rel == UA:
-                if isinstance(n, ast.Name) and n.id == "parse_upstream_auth" and qual_of(n) != "UpstreamAuth.configure":
+                if isinstance(n, ast.Name) and n.id == "parse_upstream_auth" and qual_of(n) not in configurers:
                     ctx.fail("R24.1", (UA, qual_of(n), n), "parse_upstream_auth referenced outside configure", "the encoded credentials are produced outside UpstreamAuth.configure")
-                if isinstance(n, ast.Attribute) and n.attr == "upstream_auth" and qual_of(n) != "UpstreamAuth.configure":
+                if isinstance(n, ast.Attribute) and n.attr == "upstream_auth" and qual_of(n) not in configurers:
                     ctx.fail("R24.1", (UA, qual_of(n), n), "options.upstream_auth read outside configure", "the configured credentials are read outside UpstreamAuth.configure")
                 continue
             ident = None
@@ -203,194 +593,370 @@ def r24_1(ctx):
                 continue
             n_ref += 1
             par = getattr(ident, "_parent", None)
+            if mm.rel == ADDONS_INIT and isinstance(ident, ast.alias) and ident.name == "UpstreamAuth":
+                continue  # `from .upstream_auth import UpstreamAuth` next to default_addons: what is done with the name is checked where it is used
             ok = (
-                mm.rel == "mitmproxy/addons/__init__.py"
-                and isinstance(ident, ast.Attribute)
-                and ident.attr == "UpstreamAuth"
+                mm.rel == ADDONS_INIT
+                and last_attr(ident) == "UpstreamAuth"
+                and isinstance(ident, (ast.Attribute, ast.Name))
                 and isinstance(par, ast.Call)
                 and par.func is ident
-                and qual_of(ident) == "default_addons"
+                and qual_of(ident) in builders
             )
             ctx.check(ok, "R24.1", (mm.rel, qual_of(ident), ident), f"{norm(ident)} referenced in {mm.rel}",
-                      "code outside the addon can reach the UpstreamAuth credentials", desc=f"{norm(par) if ok else norm(ident)} in default_addons")
+                      "code outside the addon can reach the UpstreamAuth credentials", desc=f"{norm(par) if ok else norm(ident)} in {qual_of(ident)}")
     ctx.require(n_ref >= 1, "UpstreamAuth is not instantiated anywhere in the package")
     ctx.require("UpstreamAuth" in default_addon_order(ctx), "UpstreamAuth() vanished from default_addons")
+    ctx.expect_instances("R24.1", 2)  # >= 1 function reading the credentials + the one instantiation site
 
 
-class HandshakeSpec(GenericSpec):
-    def __init__(self):
-        super().__init__(keep=lambda ev: ev[0] in ("yield", "yield_from", "send") or (ev[0] == "assign" and ev[1].endswith(".request")), record_conds=True)
+# ---------------------------------------------------------------------------------------------------
+# R24.3: HttpUpstreamProxy interpreted (make -> __init__ -> start_handshake) in concrete worlds
 
-    def events(self, node, st):
-        out = []
-        for ev in GenericSpec.events(self, node, st):
-            out.append(ev)
-        for n in ast.walk(node) if not isinstance(node, (ast.If, ast.While, ast.For, ast.Try, ast.With)) else []:
-            if isinstance(n, ast.Yield) and isinstance(n.value, ast.Call) and last_attr(n.value.func) == "SendData":
-                a = n.value.args
-                if len(a) != 2:
-                    raise AnalysisError(f"start_handshake: unmodelled SendData call {norm(n)}")
-                out.append(("send", attr_chain(a[0]) or norm(a[0]), norm(a[1])))
-        return out
+HTTP_REL = "mitmproxy/http.py"
+CONN_REL = "mitmproxy/connection.py"
+LAYER_REL = "mitmproxy/proxy/layer.py"
+TLS_REL = "mitmproxy/proxy/layers/tls.py"
+ASSEMBLE = "assemble_request"
+HOOK = "HttpConnectUpstreamHook"
 
-    def cond_event(self, expr, value, st):
-        if attr_chain(expr) == "self.send_connect":
-            return ("send_connect", value)
-        if "send_connect" in ast.unparse(expr):
-            raise AnalysisError(f"start_handshake: unmodelled test of send_connect: {norm(expr)}")
+
+def _b(x) -> bytes:
+    if isinstance(x, bytes):
+        return x
+    if isinstance(x, str):
+        return x.encode("utf-8", "surrogateescape")
+    if isinstance(x, int) and not isinstance(x, bool):
+        return str(x).encode()
+    raise AnalysisError(f"upstream proxy harness: cannot serialise {x!r}")
+
+
+class UpstreamWorld:
+    """One environment of ``HttpUpstreamProxy``: the layer stack is built by interpreting ``make`` (and through it the constructor
+    chain), then ``start_handshake`` of the layer it produced is interpreted.  The objects the layer only passes around are records
+    created from the *signature* of the repository class (``HTTPFlow``, ``Request``, ``Server`` - identified by the class, not by the
+    way it is imported or spelled); ``Headers`` is a case-insensitive mapping; ``http1.assemble_request`` is the trusted serialiser
+    (restated: request line, header lines, body); ``HttpConnectUpstreamHook`` is answered the way UpstreamAuth.http_connect_upstream
+    answers it when credentials are configured (R24.2): the header is put on the request of the flow handed to the hook."""
+
+    def __init__(self, ctx):
+        from ._helpers_C import CachedModel
+        from ._helpers_C import LayerInterp
+        from ._helpers_C import OpenRec
+        from ..pyint import ClassRef
+        from ..pyint import DictRec
+        from ..pyint import Func
+        from ..pyint import Raised
+        from ..pyint import Rec
+
+        world = self
+        self.Raised = Raised
+        self.ctx = ctx
+        self.model = CachedModel(ctx.model)
+        self.OpenRec, self.DictRec, self.Rec, self.Func, self.ClassRef = OpenRec, DictRec, Rec, Func, ClassRef
+        record_classes = {(HTTP_REL, "HTTPFlow"), (HTTP_REL, "Request"), (CONN_REL, "Server"), (CONN_REL, "Client"), (LAYER_REL, "NextLayer"), (TLS_REL, "ServerTLSLayer")}
+
+        class External:
+            """something imported from outside the repository and outside the trusted stdlib subset (h11's ReceiveBuffer): opaque"""
+
+            _abstract_ok = True
+
+            def __init__(self, target):
+                self.target = target
+
+            def __call__(self, *a, **k):
+                return OpenRec("external", _name=f"{self.target}()")
+
+            def __getattr__(self, attr):
+                if attr.startswith("__"):
+                    raise AttributeError(attr)
+                return External(f"{self.target}.{attr}")
+
+        class It(LayerInterp):
+            def name(self, ident, env, mod, depth, node):
+                try:
+                    return super().name(ident, env, mod, depth, node)
+                except AnalysisError:
+                    if ident not in env and ident in mod.imports and world.model.module_by_dotted(mod.imports[ident].split(".")[0]) is None:
+                        return External(mod.imports[ident])
+                    raise
+
+            def instantiate(self, c, args, kwargs, depth, where):
+                k = c._key()
+                if k == (HTTP_REL, "Headers"):
+                    return world.make_headers(args, kwargs)
+                if k in record_classes:
+                    return world.make_record(self, c, args, kwargs, depth)
+                return super().instantiate(c, args, kwargs, depth, where)
+
+            def apply(self, f, args, kwargs, depth, node=None):
+                if isinstance(f, Func) and not isinstance(f.node, ast.Lambda):
+                    k = (f.mod.rel, getattr(f.node, "_qual", f.node.name))
+                    if k[1] == ASSEMBLE and k[0].startswith("mitmproxy/net/http/http1/"):
+                        return world.assemble(*args, **kwargs)
+                    if k == (TUN, "TunnelLayer.start_handshake"):
+                        from ._helpers_C import GenDone
+
+                        world.super_handshakes += 1  # no CONNECT is sent: the tunnel is "established" at once; nothing of it is in the rule's alphabet
+                        return GenDone([], None)
+                return super().apply(f, args, kwargs, depth, node)
+
+            def binop(self, op, l, r, node):
+                if isinstance(op, ast.Div) and isinstance(l, Rec) and l._impl is not None:
+                    for meth in ("__itruediv__", "__truediv__") if isinstance(getattr(node, "_parent", None), ast.AugAssign) or isinstance(node, ast.AugAssign) else ("__truediv__",):
+                        hit = self.model.method(l._impl[0], l._impl[1], meth)
+                        if hit is not None:
+                            return self.apply(Func(hit[0], hit[1], bound=l), [r], {}, 0, node)
+                return super().binop(op, l, r, node)
+
+        self.it = It(self.model, respond=self.respond, trusted_modules={"time": __import__("time"), "uuid": __import__("uuid"), "collections": __import__("collections")})
+        self.hook_seen: list = []
+        self.assembled: list = []
+        self.super_handshakes = 0
+        self.servers: list = []
+
+    # ---- stand-ins
+    def make_record(self, it, c, args, kwargs, depth):
+        """a record with the attributes the constructor's parameters name (dataclass: its keyword fields)"""
+        qual = getattr(c.node, "_qual", c.node.name)
+        mro = self.model.mro(c.mod.rel, qual)
+        names = [cc.name for _, cc in mro]
+        rec = self.OpenRec(c.node.name, _bases=tuple(names[1:]), _name=c.node.name.lower())
+        init = self.model.method(c.mod.rel, qual, "__init__")
+        if init is not None:
+            a = init[1].args
+            skip = {"self"} | {x.arg for x in (a.vararg, a.kwarg) if x is not None}
+            env = it._bind_args(self.Func(init[0], init[1], bound=rec), list(args), dict(kwargs), depth)
+            for k, v in env.items():
+                if not k.startswith("$") and k not in skip:
+                    object.__setattr__(rec, k, v)
+        else:
+            if args:
+                raise AnalysisError(f"upstream proxy harness: positional arguments for the generated constructor of {c.node.name} are not modelled")
+            for k, v in kwargs.items():
+                object.__setattr__(rec, k, v)
+        if c.node.name == "Server":
+            self.servers.append(rec)
+            for k, v in (("via", None), ("tls", False), ("sni", None), ("alpn_offers", ())):
+                if k not in rec.__dict__:
+                    object.__setattr__(rec, k, v)
+            object.__setattr__(rec, "_name", f"server#{len(self.servers)}")
+        return rec
+
+    def make_headers(self, args, kwargs):
+        if kwargs or (args and args[0]):
+            fields = list(args[0]) if args else []
+            if kwargs or not all(isinstance(x, (tuple, list)) and len(x) == 2 for x in fields):
+                raise AnalysisError("upstream proxy harness: Headers(...) with keyword fields is not modelled")
+        else:
+            fields = []
+        h = self.DictRec("Headers", dict(fields), case_insensitive=True, _name="headers")
+
+        def insert(index, key, value):
+            items = list(h._items.items())
+            items.insert(index, (key, value))
+            h._items.clear()
+            h._items.update(items)
+
+        def add(key, value):
+            h._items[key] = value
+
+        for fn in (insert, add):
+            fn._abstract_ok = True
+            object.__setattr__(h, fn.__name__, fn)
+        return h
+
+    def assemble(self, request, *rest, **kw):
+        if rest or kw or not isinstance(request, self.Rec):
+            raise AnalysisError("upstream proxy harness: unmodelled call of http1.assemble_request")
+        d = request.__dict__
+        hdrs = d.get("headers")
+        if not isinstance(hdrs, self.DictRec):
+            raise AnalysisError("upstream proxy harness: the request's headers are not a Headers object")
+        try:
+            line = _b(d["method"]) + b" " + _b(d["authority"]) + b" " + _b(d["http_version"])
+            head = b"".join(_b(k) + b": " + _b(v) + b"\r\n" for k, v in hdrs._items.items())
+            data = line + b"\r\n" + head + b"\r\n" + _b(d.get("content") or b"")
+        except KeyError as e:
+            raise AnalysisError(f"upstream proxy harness: assemble_request of a request without {e}")
+        self.assembled.append((request, data))
+        return data
+
+    def respond(self, cmd):
+        if isinstance(cmd, self.Rec) and cmd._cls == HOOK:
+            flows = [v for v in cmd.__dict__.values() if isinstance(v, self.Rec) and v._cls == "HTTPFlow"]
+            if len(flows) != 1:
+                raise AnalysisError(f"upstream proxy harness: {HOOK} does not carry exactly one HTTPFlow")
+            fl = flows[0]
+            req = fl.__dict__.get("request")
+            seen = {"flow": fl, "request": req, "method": None}
+            if isinstance(req, self.Rec):
+                seen["method"] = req.__dict__.get("method")
+                hdrs = req.__dict__.get("headers")
+                if not isinstance(hdrs, self.DictRec):
+                    raise AnalysisError("upstream proxy harness: the CONNECT request's headers are not a Headers object")
+                for k in [k for k in hdrs._items if hdrs._k(k) == "proxy-authorization"]:
+                    del hdrs._items[k]
+                hdrs._items["Proxy-Authorization"] = CRED  # what UpstreamAuth.http_connect_upstream does (R24.2)
+            self.hook_seen.append(seen)
         return None
 
-
-def single_assignment(fn, name: str):
-    vals = []
-    for n in walk_in_order(fn):
-        if isinstance(n, ast.Assign):
-            for t in n.targets:
-                if isinstance(t, ast.Name) and t.id == name:
-                    vals.append(n.value)
-                elif isinstance(t, (ast.Tuple, ast.List)) and any(isinstance(e, ast.Name) and e.id == name for e in t.elts):
-                    vals.append(n)
-        elif isinstance(n, (ast.AnnAssign, ast.AugAssign)) and isinstance(n.target, ast.Name) and n.target.id == name:
-            vals.append(n)
-        elif isinstance(n, ast.NamedExpr) and n.target.id == name:
-            vals.append(n)
-    if len(vals) != 1:
-        raise AnalysisError(f"{fn.name}: `{name}` is assigned {len(vals)} times (the rule models exactly one assignment)")
-    return vals[0]
+    # ---- one run
+    def run(self, scheme: str, proxy_addr, dest_addr, send_connect: bool, host_header: bool):
+        it = self.it
+        OpenRec = self.OpenRec
+        it.steps = 0
+        it.writes = []
+        it.log = []
+        self.hook_seen, self.assembled, self.servers, self.super_handshakes = [], [], [], 0
+        client = OpenRec("Client", _bases=("Connection",), _name="client")
+        server = OpenRec("Server", _bases=("Connection",), _name="destination", address=dest_addr, via=(scheme, proxy_addr), tls=False, sni=None)
+        opts = {"http_connect_send_host_header": host_header}
+        options = self.DictRec("Options", dict(opts), _name="options", **opts)
+        context = OpenRec("Context", _name="context", client=client, server=server, options=options, layers=[])
+        up = self.model.module(UP)
+        cref = self.ClassRef(up, self.model.cls(UP, "HttpUpstreamProxy"))
+        make = self.model.method(UP, "HttpUpstreamProxy", "make")
+        if make is None:
+            raise AnalysisError("anchor vanished: HttpUpstreamProxy.make")
+        res = {"context": context, "server": server, "client": client}
+        try:
+            it.apply(self.Func(make[0], make[1], bound=cref), [context, send_connect], {}, 0)
+            layers = [l for l in context.__dict__["layers"] if isinstance(l, self.Rec) and l._cls == "HttpUpstreamProxy"]
+            if len(layers) != 1:
+                raise AnalysisError(f"upstream proxy harness: HttpUpstreamProxy.make registered {len(layers)} HttpUpstreamProxy layers with the context")
+            layer = layers[0]
+            res["layer"] = layer
+            res["made_servers"] = list(self.servers)
+            res["wired"] = any(v in self.servers for v in layer.__dict__.values() if isinstance(v, self.Rec))
+            it.log = []
+            sh = it.getattr(layer, "start_handshake", None, 0)
+            it.apply(sh, [], {}, 0)
+        except self.Raised as e:
+            raise AnalysisError(f"upstream proxy harness: {e} escapes make()/start_handshake() for via={scheme}://{proxy_addr}, destination {dest_addr}, send_connect={send_connect}")
+        res["cmds"] = [x for kind, x in it.log if kind == "cmd"]
+        res["hooks"] = list(self.hook_seen)
+        res["super"] = self.super_handshakes
+        return res
 
 
 def r24_3(ctx):
+    from ..pyint import Rec
+
     m = ctx.model
-    # (a) the hook is constructed at exactly one place
+    # (a) the hook is constructed only by start_handshake (or a helper that runs only on its behalf)
+    starters = exclusive_closure(ctx, UP, "HttpUpstreamProxy", ("HttpUpstreamProxy.start_handshake",))
     sites = []
-    for mm in modules_mentioning(ctx, "HttpConnectUpstreamHook"):
+    for mm in modules_mentioning(ctx, HOOK):
         for n in walk_in_order(mm.tree):
-            if isinstance(n, ast.Call) and last_attr(n.func) == "HttpConnectUpstreamHook":
+            if isinstance(n, ast.Call) and last_attr(n.func) == HOOK:
                 sites.append((mm.rel, qual_of(n), n))
-    ctx.require(sites, "HttpConnectUpstreamHook is not constructed anywhere")
+            elif isinstance(n, (ast.Name, ast.Attribute)) and last_attr(n) == HOOK and isinstance(getattr(n, "ctx", None), ast.Load):
+                par = getattr(n, "_parent", None)
+                if not (isinstance(par, ast.Call) and par.func is n) and not isinstance(par, ast.Attribute) and mm.rel not in (HK,) and not _benign_ref(n):
+                    raise AnalysisError(f"{mm.rel}::{qual_of(n)}: {HOOK} is referenced without being called (aliased / passed on): not modelled")
+    ctx.require(sites, f"{HOOK} is not constructed anywhere")
     for rel, q, n in sites:
-        ctx.check((rel, q) == (UP, "HttpUpstreamProxy.start_handshake"), "R24.3", (rel, q, n), f"HttpConnectUpstreamHook constructed in {q}",
+        ok = rel == UP and q in starters
+        ctx.check(ok, "R24.3", (rel, q, n), f"{HOOK} constructed in {q}",
                   "the hook that attaches upstream credentials fires outside the CONNECT handshake with the upstream proxy",
-                  desc="HttpConnectUpstreamHook constructed in HttpUpstreamProxy.start_handshake")
-    meth = hook_method(ctx, HK, "HttpConnectUpstreamHook")
-    ctx.require(m.has(UA, f"UpstreamAuth.{meth}"), f"UpstreamAuth does not implement {meth} (hook name of HttpConnectUpstreamHook)")
-    ctx.require(hook_method(ctx, HK, "HttpRequestHeadersHook") == "requestheaders", "HttpRequestHeadersHook no longer dispatches to `requestheaders`")
+                  desc=f"{HOOK} constructed in {q}" + ("" if q == "HttpUpstreamProxy.start_handshake" else " (runs only on behalf of start_handshake)"))
+    meth = hook_method_sem(ctx, HK, HOOK)
+    ctx.require(m.has(UA, f"UpstreamAuth.{meth}"), f"UpstreamAuth does not implement {meth} (hook name of {HOOK})")
+    ctx.require(hook_method_sem(ctx, HK, "HttpRequestHeadersHook") == "requestheaders", "HttpRequestHeadersHook no longer dispatches to `requestheaders`")
 
-    # (b) paths of start_handshake
+    # (b) + (c): the layer built by make() and its handshake, interpreted
     fn = ctx.func(UP, "HttpUpstreamProxy.start_handshake")
-    where = (UP, "HttpUpstreamProxy.start_handshake", fn)
-    hooks = [n for n in walk_in_order(fn) if isinstance(n, ast.Call) and last_attr(n.func) == "HttpConnectUpstreamHook"]
-    if len(hooks) != 1:
-        if not hooks:
-            raise AnalysisError("start_handshake no longer yields HttpConnectUpstreamHook")
-        raise AnalysisError("start_handshake constructs HttpConnectUpstreamHook more than once (not modelled)")
-    hook = hooks[0]
-    ctx.require(len(hook.args) == 1 and isinstance(hook.args[0], ast.Name), f"unmodelled hook argument {norm(hook)}")
-    flowvar = hook.args[0].id
-    fl = single_assignment(fn, flowvar)
-    ctx.require(isinstance(fl, ast.Call) and last_attr(fl.func) == "HTTPFlow", f"start_handshake: `{flowvar}` is not a fresh HTTPFlow: {norm(fl)}")
-    # the request attached to the flow is the CONNECT
-    reqs = [n for n in walk_in_order(fn) if isinstance(n, ast.Assign) and any(attr_chain(t) == f"{flowvar}.request" for t in n.targets)]
-    ctx.require(len(reqs) == 1, f"start_handshake assigns {flowvar}.request {len(reqs)} times")
-    rv = reqs[0].value
-    ctx.require(isinstance(rv, ast.Call) and attr_chain(rv.func).split(".")[-1] in ("Request", "make"), f"unmodelled request construction {norm(rv)}")
-    consts = [a for a in list(rv.args) + [k.value for k in rv.keywords] if isinstance(a, ast.Constant)]
-    is_connect = any(c.value in (b"CONNECT", "CONNECT") for c in consts)
-    ctx.check(is_connect, "R24.3", where, f"{flowvar}.request is a CONNECT request", "the flow handed to http_connect_upstream is not the CONNECT sent to the upstream proxy",
-              desc=f"{flowvar}.request = Request(method=CONNECT)")
-    traces, eng = traces_of(fn, HandshakeSpec())
-    ctx.paths += len(traces)
-    bad = {}
-    n_hook = 0
-    for tr, how, _ in traces:
-        ih = next((i for i, e in enumerate(tr) if e == ("yield", "HttpConnectUpstreamHook")), -1)
-        if ih < 0:
-            continue
-        n_hook += 1
-        if not any(e == ("send_connect", True) for e in tr[:ih]):
-            bad.setdefault("HttpConnectUpstreamHook fires on a path where self.send_connect is not known to be true", tr)
-        if not any(e[0] == "assign" and e[1] == f"{flowvar}.request" for e in tr[:ih]):
-            bad.setdefault("HttpConnectUpstreamHook fires before the CONNECT request is attached to the flow", tr)
-        sends = [e for e in tr if e[0] == "send"]
-        for e in sends:
-            if e[1] != "self.tunnel_connection":
-                bad.setdefault(f"SendData to {e[1]} on the CONNECT handshake path", tr)
-        after = [e for e in tr[ih:] if e[0] == "send" and e[1] == "self.tunnel_connection"]
-        for e in after:
-            # the payload is assemble_request(<flow>.request)
-            payload = ast.parse(e[2], mode="eval").body
-            if isinstance(payload, ast.Name):
-                payload = single_assignment(fn, payload.id)
-            ok = isinstance(payload, ast.Call) and last_attr(payload.func) == "assemble_request" and len(payload.args) == 1 and attr_chain(payload.args[0]) == f"{flowvar}.request"
-            if not ok:
-                raise AnalysisError(f"start_handshake: payload of SendData is not assemble_request({flowvar}.request): {e[2]}")
-    ctx.require(n_hook >= 1, "start_handshake: no path yields the hook (path enumeration broke)")
-    for msg, tr in sorted(bad.items()):
-        ctx.fail("R24.3", where, msg, "the CONNECT carrying the upstream credentials can reach a connection other than the upstream proxy, or fires when no CONNECT is sent",
-                 trace=[list(e) for e in tr])
-    if not bad:
-        ctx.ok("R24.3", f"start_handshake: {n_hook} hook paths, all under send_connect, every SendData targets self.tunnel_connection")
-
-    # (c) wiring: tunnel_connection is the Server built from ctx.server.via
-    tl_init = ctx.func(TUN, "TunnelLayer.__init__")
-    tparams = [a.arg for a in tl_init.args.args][1:]
-    ctx.require(tparams[:3] == ["context", "tunnel_connection", "conn"], f"TunnelLayer.__init__ signature changed: {tparams}")
-    sets = {attr_chain(s.targets[0]): attr_chain(s.value) for s in tl_init.body if isinstance(s, ast.Assign) and len(s.targets) == 1}
-    ctx.require(sets.get("self.tunnel_connection") == "tunnel_connection" and sets.get("self.conn") == "conn", "TunnelLayer.__init__ no longer stores tunnel_connection / conn as given")
-    init = ctx.func(UP, "HttpUpstreamProxy.__init__")
-    iparams = [a.arg for a in init.args.args][1:]
-    ctx.require(len(iparams) == 3, f"HttpUpstreamProxy.__init__ signature changed: {iparams}")
-    sup = [c for c in walk_in_order(init) if isinstance(c, ast.Call) and norm(c.func) == "super().__init__"]
-    ctx.require(len(sup) == 1, "HttpUpstreamProxy.__init__ no longer calls super().__init__ once")
-    bound = dict(zip(tparams, sup[0].args))
-    bound.update({k.arg: k.value for k in sup[0].keywords if k.arg})
-    tc = bound.get("tunnel_connection")
-    ctx.require(tc is not None, "HttpUpstreamProxy.__init__ does not pass tunnel_connection")
-    ok = isinstance(tc, ast.Name) and tc.id == iparams[1]
-    if not ok and not (attr_chain(tc).endswith(".server") or isinstance(tc, ast.Name)):
-        raise AnalysisError(f"HttpUpstreamProxy.__init__: unmodelled tunnel_connection argument {norm(tc)}")
-    ctx.check(ok, "R24.3", (UP, "HttpUpstreamProxy.__init__", init), f"tunnel_connection={norm(tc)}",
-              "the tunnel (proxy) connection of HttpUpstreamProxy is not the connection handed in by make()", desc=f"__init__: tunnel_connection={norm(tc)}")
     mk = ctx.func(UP, "HttpUpstreamProxy.make")
-    mparams = [a.arg for a in mk.args.args]
-    calls = [c for c in walk_in_order(mk) if isinstance(c, ast.Call) and isinstance(c.func, ast.Name) and c.func.id in (mparams[0], "HttpUpstreamProxy")]
-    ctx.require(len(calls) == 1 and len(calls[0].args) >= 2, "HttpUpstreamProxy.make no longer instantiates cls(ctx, proxy_conn, send_connect) once")
-    arg = calls[0].args[1]
-    ok = False
-    if isinstance(arg, ast.Name):
-        srv = single_assignment(mk, arg.id)
-        if isinstance(srv, ast.Call) and last_attr(srv.func) == "Server":
-            addr = {k.arg: k.value for k in srv.keywords}.get("address")
-            if isinstance(addr, ast.Name):
-                src = single_assignment(mk, addr.id)
-                ok = (
-                    isinstance(src, ast.Assign)
-                    and isinstance(src.targets[0], ast.Tuple)
-                    and len(src.targets[0].elts) == 2
-                    and getattr(src.targets[0].elts[1], "id", None) == addr.id
-                    and attr_chain(src.value) == f"{mparams[1]}.server.via"
-                )
-            elif addr is not None and norm(addr) == f"{mparams[1]}.server.via[1]":
-                ok = True
-        if not ok and not (isinstance(srv, ast.Call) and last_attr(srv.func) == "Server"):
-            raise AnalysisError(f"HttpUpstreamProxy.make: unmodelled proxy connection {norm(srv)}")
-    elif not attr_chain(arg).endswith(".server"):
-        raise AnalysisError(f"HttpUpstreamProxy.make: unmodelled proxy connection argument {norm(arg)}")
-    ctx.check(ok, "R24.3", (UP, "HttpUpstreamProxy.make", mk), f"proxy connection argument {norm(arg)}",
-              "the tunnel connection is not a Server for the address in ctx.server.via (the upstream proxy)", desc=f"make: cls(ctx, {norm(arg)}=Server(address=via[1]), ...)")
+    init = ctx.func(UP, "HttpUpstreamProxy.__init__")
+    ctx.func(TUN, "TunnelLayer.__init__")
+    where = (UP, "HttpUpstreamProxy.start_handshake", fn)
+    world = UpstreamWorld(ctx)
+    bad: dict = {}
+    wiring_bad: dict = {}
+    n_worlds = n_hook = n_send = 0
+    dests = (("example.com", 443), ("192.0.2.7", 8443), ("2001:db8::1", 443))
+    for scheme, proxy_addr in (("http", ("proxy.example", 3128)), ("https", ("secure-proxy.example", 8443))):
+        for dest in dests:
+            for send_connect in (True, False):
+                for host_header in (True, False):
+                    r = world.run(scheme, proxy_addr, dest, send_connect, host_header)
+                    n_worlds += 1
+                    ctx.paths += 1
+                    tag = f"via={scheme}://{proxy_addr[0]}:{proxy_addr[1]} destination={dest[0]} send_connect={send_connect}"
+                    # the upstream proxy's connection: the Server make() builds for the address in ctx.server.via (by identity, whatever
+                    # the layer calls the attribute it keeps it in)
+                    proxies = [x for x in r["made_servers"] if x.__dict__.get("address") == proxy_addr and x is not r["server"]]
+                    if len(proxies) != 1:
+                        raise AnalysisError(f"HttpUpstreamProxy.make builds {len(proxies)} Server connections for the address in ctx.server.via ({tag})")
+                    proxy = proxies[0]
+                    cmds = r["cmds"]
+                    hooks = r["hooks"]
+                    sends = []
+                    for c in cmds:
+                        if isinstance(c, Rec) and c.isa("SendData"):
+                            pub = [v for k, v in c.__dict__.items() if not k.startswith("_")]
+                            conns, datas = [v for v in pub if isinstance(v, Rec)], [v for v in pub if isinstance(v, (bytes, bytearray))]
+                            if len(conns) != 1 or len(datas) != 1:
+                                raise AnalysisError(f"start_handshake: SendData command without exactly one connection and one payload ({tag})")
+                            sends.append((conns[0], bytes(datas[0])))
+                    if not send_connect:
+                        if hooks:
+                            bad.setdefault(f"{HOOK} fires although send_connect is false", tag)
+                        continue
+                    if not hooks:
+                        raise AnalysisError(f"start_handshake: no {HOOK} is yielded although send_connect is true ({tag})")
+                    n_hook += len(hooks)
+                    for h in hooks:
+                        if not isinstance(h["request"], Rec):
+                            bad.setdefault(f"{HOOK} fires before the CONNECT request is attached to the flow", tag)
+                        elif h["method"] not in (b"CONNECT", "CONNECT"):
+                            bad.setdefault("the flow handed to the hook does not carry the CONNECT request (request is a CONNECT request: no)", tag)
+                    for conn, data in sends:
+                        n_send += 1
+                        if conn is not proxy:
+                            name = "the destination connection (ctx.server)" if conn is r["server"] else "the client connection" if conn is r["client"] else getattr(conn, "_name", repr(conn))
+                            (wiring_bad if conn is r["server"] and not r["wired"] else bad).setdefault(f"SendData to {name} on the CONNECT handshake path", tag)
+                    if not any(conn is proxy and CRED in data for conn, data in sends) and not any(k.startswith("SendData to") for k in list(bad) + list(wiring_bad)):
+                        raise AnalysisError(f"start_handshake: the bytes sent to the upstream proxy do not carry the header the hook attached ({tag}); order of hook / assembly not modelled")
+    for msg, tag in sorted(bad.items()):
+        ctx.fail("R24.3", where, msg, "the CONNECT carrying the upstream credentials can reach a connection other than the upstream proxy, or fires when no CONNECT is sent", world=tag)
+    if not bad:
+        ctx.ok("R24.3", f"start_handshake interpreted in {n_worlds} worlds: {n_hook} hooks, all under send_connect, each with the flow whose request is the CONNECT")
+        ctx.ok("R24.3", f"every SendData of the handshake ({n_send}) targets the upstream proxy's connection and the assembled CONNECT carries the header the hook attached")
+    for msg, tag in sorted(wiring_bad.items()):
+        ctx.fail("R24.3", (UP, "HttpUpstreamProxy.make", mk), msg, "the CONNECT with the credentials is sent to a connection that is not the configured upstream proxy", world=tag)
+    if not wiring_bad:
+        ctx.ok("R24.3", "make()/__init__ interpreted: the connection the handshake talks to is the Server built for ctx.server.via[1], distinct from the destination connection")
+    ctx.ok("R24.3", f"UpstreamAuth.{meth} is the method {HOOK} dispatches to")
+
+
+def _benign_ref(n) -> bool:
+    p, c = getattr(n, "_parent", None), n
+    while p is not None:
+        if isinstance(p, ast.Call) and isinstance(p.func, ast.Name) and p.func.id in ("isinstance", "issubclass") and c is not p.func:
+            return True  # a type test does not construct the hook
+        if isinstance(p, ast.MatchClass) and p.cls is c:
+            return True
+        if isinstance(p, (ast.AnnAssign,)) and p.annotation is c:
+            return True
+        if isinstance(p, ast.arg) and p.annotation is c:
+            return True
+        if isinstance(p, (ast.FunctionDef, ast.AsyncFunctionDef)):
+            return p.returns is c
+        if isinstance(p, (ast.Import, ast.ImportFrom)):
+            return True
+        p, c = getattr(p, "_parent", None), p
+    return False
 
 
 def r24_5(ctx):
     """Decision of both hook methods extracted by interpreting their AST (pyint) - robust against refactors such as table dispatch."""
-    from ..pyint import DictRec
-    from ..pyint import Interp
-    from ..pyint import Raised
-    from ..pyint import Rec
-
     import itertools
 
+    hi = HookInterp(ctx)
     modes = mode_classes(ctx)
-    AUTH = b"Basic dXNlcjpwYXNz"
+    AUTH = CRED
     n = 0
     bad = 0
     # Where a request goes is decided by the HTTP layer from (proxy mode, request.scheme) alone (GetHttpConnection.tls = request.scheme == "https",
@@ -406,7 +972,6 @@ def r24_5(ctx):
         for auth in (AUTH, None):
             for mode in modes if meth == "requestheaders" else ["UpstreamMode"]:
                 for scheme in ("http", "https"):
-                    anc = [c.name for _, c in ctx.model.mro(MODE_SPECS, mode)]
                     if meth == "http_connect_upstream":
                         want = {"proxy-authorization": AUTH} if auth else {}
                     elif auth and mode == "UpstreamMode" and scheme == "http":
@@ -423,24 +988,11 @@ def r24_5(ctx):
                         port = (443 if https else 80) if std_port is None else ((443 if https else 80) if std_port else (8080 if https else 443))
                         if (server_tls, client_tls, std_port) != (None, None, None) and (s_tls, c_tls, port) == (https, https, 443 if https else 80):
                             continue
-                        it = Interp(ctx.model, trusted_modules={"base64": __import__("base64"), "re": __import__("re")})
-                        headers = DictRec("Headers", {"Host": "example.com", "Accept": "*/*"}, case_insensitive=True, _name="request.headers")
-                        req = Rec("Request", _name="request", scheme=scheme, headers=headers, method="CONNECT" if meth == "http_connect_upstream" else "GET", host="example.com", port=port,
-                                  authority="example.com", path="/", http_version="HTTP/1.1", is_http2=False, is_http3=False, is_http11=True, is_http10=False, first_line_format="absolute")
-                        mode_rec = Rec(mode, _bases=tuple(anc[1:]), _impl=(MODE_SPECS, mode), scheme="http", transport_protocol="tcp", full_spec=mode, type_name=mode)
-                        flow = Rec("HTTPFlow", _name="flow", request=req, response=None, client_conn=Rec("Client", proxy_mode=mode_rec, tls=c_tls, tls_established=c_tls),
-                                   server_conn=Rec("Server", via=None, address=("example.com", port), tls=s_tls, tls_established=False, connected=False, timestamp_start=None, peername=None),
-                                   metadata=DictRec("dict", {}, _name="flow.metadata"), is_replay=None, live=True)
-                        self_rec = Rec("UpstreamAuth", _impl=(UA, "UpstreamAuth"), auth=auth)
-                        try:
-                            it.method(self_rec, meth, flow)
-                            outcome = {k.lower(): v for k, v in headers._items.items() if k.lower() in ("proxy-authorization", "authorization")}
-                        except Raised as r:
-                            outcome = f"raises {r.name}"
+                        outcome, world = hi.run(meth, auth, mode, scheme, server_tls, client_tls, std_port)
                         n += 1
                         ctx.cells += 1
                         if outcome != want and failed is None:
-                            failed = (outcome, "" if (server_tls, client_tls, std_port) == (None, None, None) else f" [flow.server_conn.tls={s_tls} flow.client_conn.tls={c_tls} request.port={port}]")
+                            failed = (outcome, world)
                             break
                     if failed is not None:
                         bad += 1
@@ -513,6 +1065,8 @@ MUTANTS = [
     Mutant("header-value-not-configured-auth", UA, '                f.request.headers["Authorization"] = self.auth', '                f.request.headers["Authorization"] = b"Basic Og=="', "R24.5"),
     Mutant("auth-read-in-new-hook", UA, "    def requestheaders(self, f: http.HTTPFlow):\n",
            "    def request(self, f: http.HTTPFlow):\n        if self.auth:\n            f.request.headers[\"Proxy-Authorization\"] = self.auth\n\n    def requestheaders(self, f: http.HTTPFlow):\n", "R24.1"),
+    Mutant("private-helper-reused-by-another-hook", UA, "    def requestheaders(self, f: http.HTTPFlow):\n",
+           "    def _creds(self):\n        return self.auth\n\n    def response(self, f):\n        f.response.headers[\"X-Upstream-Auth\"] = self._creds()\n\n    def requestheaders(self, f: http.HTTPFlow):\n", "R24.1"),
     Mutant("creds-exported-elsewhere", "mitmproxy/addons/proxyauth.py", "from mitmproxy import ctx\n", "from mitmproxy import ctx\nfrom mitmproxy.addons.upstream_auth import parse_upstream_auth\n", "R24.1"),
     Mutant("scheme-check-dropped", UA, "                and f.request.scheme == \"http\"\n", "", "R24.2"),
     Mutant("tunnelled-https-gets-header-too", UA, "                and f.request.scheme == \"http\"\n", "", "R24.4"),
@@ -526,5 +1080,28 @@ MUTANTS = [
     Mutant("make-passes-destination-conn", UP, "stack /= cls(ctx, http_proxy, send_connect)", "stack /= cls(ctx, ctx.server, send_connect)", "R24.3"),
     Mutant("init-swaps-connections", UP, "tunnel_connection=tunnel_conn, conn=ctx.server", "tunnel_connection=ctx.server, conn=tunnel_conn", "R24.3"),
     Mutant("hook-also-on-handshake-data", UP, "        self.buf += data\n        response_head = ", "        yield HttpConnectUpstreamHook(http.HTTPFlow(self.context.client, self.conn))\n        self.buf += data\n        response_head = ", "R24.3"),
+    Mutant("hook-helper-reused-on-handshake-data", UP, """        yield HttpConnectUpstreamHook(flow)
+        raw = http1.assemble_request(flow.request)
+        yield commands.SendData(self.tunnel_connection, raw)
+
+    def receive_handshake_data(
+        self, data: bytes
+    ) -> layer.CommandGenerator[tuple[bool, str | None]]:
+        if not self.send_connect:
+            return (yield from super().receive_handshake_data(data))
+""", """        yield from self._announce(flow)
+        raw = http1.assemble_request(flow.request)
+        yield commands.SendData(self.tunnel_connection, raw)
+
+    def _announce(self, flow):
+        yield HttpConnectUpstreamHook(flow)
+
+    def receive_handshake_data(
+        self, data: bytes
+    ) -> layer.CommandGenerator[tuple[bool, str | None]]:
+        if not self.send_connect:
+            return (yield from super().receive_handshake_data(data))
+        yield from self._announce(http.HTTPFlow(self.context.client, self.conn))
+""", "R24.3"),
     Mutant("request-not-connect", UP, "            method=b\"CONNECT\",\n", "            method=b\"GET\",\n", "R24.3"),
 ]
